@@ -618,3 +618,36 @@ def c03_window_interval_unchecked(r):
 def c09_nested_par_loop_unchecked(r):
     """(fixed) a racy parallel loop that is not a top-level statement"""
     return r.get("property") == "C09"
+
+
+def autofission_loop_carried_dependency(r):
+    """autofission (DoFissionLoops) performs no dependence check: a statement after the gap
+    reads or writes a buffer that a statement before the gap writes, and the buffer outlives
+    one iteration"""
+    if r.get("op") != "autofission" or r.get("property") not in ("C01", "C10"):
+        return False
+    p, op, args, env = _ctx(r)
+    gap = args[0]._impl
+    sibs, k = _block_and_index(gap._anchor)
+    cut = k if gap._type.name == "Before" else k + 1
+    pre, post = sibs[:cut], sibs[cut:]
+    local = {s.name for s in pre if isinstance(s, LoopIR.Alloc)}
+    w_pre = set()
+    for s in pre:
+        w_pre |= set(_writes_in(s, []))
+    uses_post = set()
+    for s in post:
+        uses_post |= {rd.name for rd in _all_reads(s)} | set(_writes_in(s, []))
+    return bool((w_pre - local) & uses_post)
+
+
+def split_write_rhs_reads_lhs(r):
+    """split_write turns x = a + b into x = a; x += b without checking that b does not read x"""
+    if r.get("op") != "split_write":
+        return False
+    p, op, args, env = _ctx(r)
+    s = args[0]._impl._node
+    rhs = s.rhs
+    if not isinstance(rhs, LoopIR.BinOp):
+        return False
+    return any(rd.name == s.name for rd in _all_reads(rhs.rhs)) or any(rd.name == s.name for rd in _all_reads(rhs.lhs))
